@@ -1,4 +1,77 @@
-From Mammoth Require Import Html.
-Example c04_placeholder : collapse (fun s => s) [] = [].
-Proof. reflexivity. Qed.
-Print Assumptions c04_placeholder.
+(* C04 — adjacent output elements merge exactly as the freshness rules say.
+   Only statements here; each is closed by `exact <lemma>` from Proofs/HtmlCollapse.v. *)
+From Mammoth Require Import Html Writer HtmlCollapseSpec HtmlCollapse.
+From Coq Require Import Relations.
+Local Open Scope N_scope.
+
+Section C04.
+  Context {A : Type} (mk : str -> A).
+
+  (* the code as written (mammoth.html.collapse, re-collapsing on fuel) IS the structural specification *)
+  Theorem C04_code_is_spec (ns : list (node A)) (fuel : nat) :
+    (fsize ns < fuel)%nat -> collapse_f mk fuel ns = Some (collapse mk ns).
+  Proof. exact (collapse_f_spec mk ns fuel). Qed.
+
+  (* "if and only if": a later sibling disappears into the element before it exactly when it is not
+     fresh, one of its tag names is the earlier element's tag, and the attributes are identical *)
+  Theorem C04_merge_iff (acc : list (node A)) (cn : node A) :
+    length (merge_into mk acc cn) = length acc
+    <-> exists init l, acc = init ++ [l] /\ mergeable l cn = true.
+  Proof. exact (merge_iff mk acc cn). Qed.
+
+  Theorem C04_match_conditions (l n : tag) :
+    is_match l n = true <-> In (tname l) (tnames n) /\ tattrs l = tattrs n.
+  Proof. exact (is_match_iff l n). Qed.
+
+  (* merging appends the children, preceded by the separator, applying the same rule recursively *)
+  Theorem C04_merge_shape init lt lcs nt ncs :
+    tcoll nt && is_match lt nt = true ->
+    merge_into mk (init ++ [Elem lt lcs]) (Elem nt ncs)
+    = init ++ [Elem lt (merge_all mk ncs (lcs ++ sep_nodes mk nt))].
+  Proof. exact (merge_into_merge mk init lt lcs nt ncs). Qed.
+
+  Theorem C04_refuse_shape (acc : list (node A)) (cn : node A) :
+    (forall init l, acc = init ++ [l] -> mergeable l cn = false) -> merge_into mk acc cn = acc ++ [cn].
+  Proof. exact (merge_into_refuse mk acc cn). Qed.
+
+  (* no adjacent mergeable pair is left at any depth, and the result is a fixed point *)
+  Theorem C04_normal_form (ns : list (node A)) : nf_forest (collapse mk ns) = true.
+  Proof. exact (collapse_nf mk ns). Qed.
+
+  Theorem C04_idempotent (ns : list (node A)) : collapse mk (collapse mk ns) = collapse mk ns.
+  Proof. exact (collapse_idem mk ns). Qed.
+End C04.
+
+(* never loses, duplicates or reorders leaves; never joins elements with different attributes, and
+   tags are joined only along legal match steps.  Separator text (inr) is the only addition. *)
+Theorem C04_paths {B : Type} (ns : list (node (B + str))) :
+  forallb all_inl ns = true ->
+  Forall2 (fun po pi => snd po = snd pi /\
+                        Forall2 (fun o i => tattrs o = tattrs i /\ match_star o i) (fst po) (fst pi))
+          (filter is_orig (leaves (collapse inr ns))) (leaves ns).
+Proof. exact (collapse_paths ns). Qed.
+
+Theorem C04_text_without_separators (ns : list (node str)) :
+  forallb no_sep_node ns = true -> forest_text (collapse (fun s => s) ns) = forest_text ns.
+Proof. exact (collapse_text_nosep ns). Qed.
+
+(* non-vacuity: a forest in which one merge happens (through a `|` alternative, with a separator)
+   and one is refused (different attributes) *)
+Example C04_witness :
+  let ol := mkTag [111;108] [] [] true None in
+  let ulol := mkTag [117;108] [[111;108]] [] true (Some [45]) in
+  let p1 := mkTag [112] [] [([97],[49])] true None in
+  let p := mkTag [112] [] [] true None in
+  collapse (fun s => s) [Elem ol [Text [49]]; Elem ulol [Text [50]]; Elem p1 [Text [51]]; Elem p [Text [52]]]
+  = [Elem ol [Text [49]; Text [45]; Text [50]]; Elem p1 [Text [51]]; Elem p [Text [52]]].
+Proof. vm_compute. reflexivity. Qed.
+
+Print Assumptions C04_code_is_spec.
+Print Assumptions C04_merge_iff.
+Print Assumptions C04_match_conditions.
+Print Assumptions C04_merge_shape.
+Print Assumptions C04_refuse_shape.
+Print Assumptions C04_normal_form.
+Print Assumptions C04_idempotent.
+Print Assumptions C04_paths.
+Print Assumptions C04_text_without_separators.
